@@ -43,6 +43,10 @@ fn check_dfa(acc: &mut Acc, dfa: &DFA, owner: &DFA, what: &str, text: &str) {
                         .or_default()
                         .push((format!("{literal} {:?} (level {fallback_level})", description.map(|d| d.to_string())), *to));
                 }
+                Inp::Command { cmd, fallback_level } | Inp::Compadd { cmd, fallback_level } => {
+                    // one command = one set of words it produces, whatever the level
+                    lit.entry(format!("{{{{{{ {cmd} }}}}}}")).or_default().push((format!("command {cmd:?} (level {fallback_level})"), *to));
+                }
                 Inp::Subword { subdfa, .. } => {
                     let sub = owner.subdfas.verif_lookup(*subdfa);
                     let n = keys.impl_lnfa(sub, owner);
